@@ -409,6 +409,13 @@ class C08:
         want = {"delete": {("%s.storage_id is None" % ent, False), ("%s.is_trash" % ent, True)},
                 "update": {("%s.storage_id is None" % ent, False), ("%s.is_trash" % ent, False)},
                 "create": {("%s.storage_id is None" % ent, True), ("%s.is_trash" % ent, False)}}
+        issued = {n.func.attr for n in ctx.own_nodes(su) if isinstance(n, ast.Call) and isinstance(n.func, ast.Attribute) and n.func.attr in want
+                  and pat.match("self._storage", n.func.value) is not None}
+        for k in sorted(set(want) - issued):
+            rep.violation("C08.R5", "_storage_update|%s" % k, su, "_storage_update never issues storage.%s(): %s" % (k, {
+                "delete": "the row of an entry that became trash stays in storage and is loaded again after a restart (a stale duplicate claiming ids that moved on)",
+                "update": "changes of an entry that already has a row are never written",
+                "create": "new entries never get a row"}[k]), func=su.qname)
         for n in ctx.own_nodes(su):
             if isinstance(n, ast.Call) and isinstance(n.func, ast.Attribute) and n.func.attr in want and pat.match("self._storage", n.func.value) is not None:
                 facts = ctx.facts_at(su, n)
